@@ -359,7 +359,7 @@ func main() {
 		if int(g("max_depth")) > tot.maxDepth {
 			tot.maxDepth = int(g("max_depth"))
 		}
-		if int(g("bound_completed")) < tot.boundCompleted {
+		if g("bound_max") > 0 && int(g("bound_completed")) < tot.boundCompleted {
 			tot.boundCompleted = int(g("bound_completed"))
 		}
 		if int(g("bound_max")) > tot.boundMax {
